@@ -79,6 +79,10 @@ func vfC10Cfg(w *vfWorld, cs *vfC10Case) *vfCfg {
 }
 
 func vfC10(w *vfWorld) {
+	if w.variant == "race" {
+		vfFreeRun(w, "C10")
+		return
+	}
 	cs := &vfC10Case{}
 	w.sample = cs
 	if w.tape.Weighted("c10.mode", 5, 5) == 0 {
